@@ -91,6 +91,14 @@ func (rn *Renderer) renderNode(tbl *table.Table, n *Node) {
 	} else {
 		cmp = compareAccount
 	}
+	// break ties by the remaining displayed columns, so that the order
+	// of the rows does not depend on the iteration order of the map.
+	if rn.ShowSource {
+		cmp = compare.Combine(cmp, compareSource)
+	}
+	if rn.ShowDescriptions {
+		cmp = compare.Combine(cmp, compareDescription)
+	}
 	idx := n.Amounts.Index(cmp)
 	for i, k := range idx {
 		row := tbl.AddRow()
@@ -120,6 +128,14 @@ func (rn *Renderer) renderNode(tbl *table.Table, n *Node) {
 
 func compareAccount(k1, k2 amounts.Key) compare.Order {
 	return account.Compare(k1.Other, k2.Other)
+}
+
+func compareSource(k1, k2 amounts.Key) compare.Order {
+	return account.Compare(k1.Account, k2.Account)
+}
+
+func compareDescription(k1, k2 amounts.Key) compare.Order {
+	return compare.Ordered(k1.Description, k2.Description)
 }
 
 func compareAccountAndCommodities(k1, k2 amounts.Key) compare.Order {
